@@ -154,9 +154,9 @@ def main():
     driver_exe()
     stats = dict(states=0, transitions=0, executions=0)
     driver_exe("schedsmall")
-    plan = [("two", 2), ("same-size", 2), ("tmm", 2), ("files", 2), ("abort", 2), ("error", 2), ("rules-level", 2), ("three", 1 if quick else 2)]
+    plan = [("two", 2), ("same-size", 2), ("fast", 2), ("tmm", 2), ("files", 2), ("abort", 2), ("error", 2), ("rules-level", 2), ("three", 1 if quick else 2)]
     if not quick:
-        plan = [("two", None), ("same-size", None), ("tmm", None), ("files", 3), ("abort", 3), ("error", 3), ("rules-level", 3), ("three", 2)]
+        plan = [("two", None), ("same-size", None), ("fast", None), ("tmm", None), ("files", 3), ("abort", 3), ("error", 3), ("rules-level", 3), ("three", 2)]
     outs = {}
     for scen, bound in plan:
         outs[scen] = explore(ck, scen, bound, stats)
@@ -176,7 +176,7 @@ def main():
     d = Driver(); r = d.run("two", [0, 0, 0, 1, 1, 0]); d.p.kill()
     ck.sample(dict(scenario="two", schedule_prefix=[0, 0, 0, 1, 1, 0], points=[[p[0], p[2], p[3]] for p in r["points"]][:40], thread_traces=r["traces"]))
     ck.cov["rule"] = ("executions = schedules of the real driver (2-3 threads: create scanner, define external, scan, destroy; variants with callback abort / error, the "
-                      "rules-level entry point, two different buffers of equal size whose module values are logged, a scan by path next to two scans through one descriptor (the descriptor table is process-wide), and - on the build with the match limit scaled to 8 - one scan that exceeds the limit and continues while the other needs every match of that string) enumerated by DFS with prefix replay; states = distinct hashes of (per-thread progress, mutex owner, usecount, installed / saved handler, "
+                      "rules-level entry point, two different buffers of equal size whose module values are logged, one thread scanning in fast mode with a timeout set while the other scans with the defaults (match data is part of the trace), a scan by path next to two scans through one descriptor (the descriptor table is process-wide), and - on the build with the match limit scaled to 8 - one scan that exceeds the limit and continues while the other needs every match of that string) enumerated by DFS with prefix replay; states = distinct hashes of (per-thread progress, mutex owner, usecount, installed / saved handler, "
                       "trace lengths) seen at scheduling points; transitions = distinct (state, thread chosen); preemption bounds per scenario in subspaces")
     ck.assumptions += ["the scheduler serialises threads: plain data races are only visible to the free-running TSan pass", "SIGBUS delivery itself is not scheduled (mapped-file faults run in the TSan/free pass only)"]
     ck.finish()
